@@ -830,6 +830,8 @@ class ArrayOf(DataType):
         self.check_type(value)
         try:
             if previous:
+                # value may be longer than previous: do not drop the additional elements
+                previous = tuple(previous) + (None,) * (len(value) - len(previous))
                 return tuple(self.members.validate(v, p) for v, p in zip(value, previous))
             return tuple(self.members.validate(v) for v in value)
         except Exception as e:
